@@ -391,6 +391,8 @@ def direction_rules(check, L):
             r = I.as_num(path.value) if path.outcome == "return" else None
             if r is not None and r.p == Poly.const(sgn) * TWO_PI:
                 check.ok("R3", f"Direction.{member}.full_turn = {sgn}*2*pi")
+            elif path.outcome == "return" and r is None:
+                check.undecided("R3", f"Direction.{member}.full_turn returns {path.value!r}, a value the analysis cannot follow")
             else:
                 check.violation("R3", f"full_turn:{member}", f"Direction.{member}.full_turn returns {path.value!r}, expected {sgn}*2*pi", [])
     return n
